@@ -381,6 +381,7 @@ func (d *duplexHTTPCall) makeRequest() {
 func (d *duplexHTTPCall) watchContext() {
 	select {
 	case <-d.ctx.Done():
+		verifYield(d.ctx, "watch.woken")
 		// Closes the read side of the request body (unless CloseWrite already
 		// ended it, in which case net/http is watching the context itself): the
 		// transport resets the stream and blocked reads return.
